@@ -709,7 +709,8 @@ pub fn generate(r: &mut Rng, opts: &BTreeMap<String, String>, sess: &mut Session
                 let (b, _, len) = boundaries(sess, &who, &obj, enc);
                 if len > 0 {
                     let pos = b[r.below(b.len() as u64 - 1) as usize];
-                    let v = match r.below(4) { 0 => format!("s{}", hex::encode("Z")), 1 => format!("s{}", hex::encode("é")), 2 => "i5".to_string(), _ => format!("s{}", hex::encode("🙂")) };
+                    // (an EMPTY string is a zero-width text element: no unit index reaches it, spans / marks must skip it)
+                    let v = match r.below(5) { 0 => format!("s{}", hex::encode("Z")), 1 => format!("s{}", hex::encode("é")), 2 => "i5".to_string(), 3 => { out.count("text_put_empty_string"); "s".to_string() } _ => format!("s{}", hex::encode("🙂")) };
                     run(sess, &format!("crdt.rt.put {} {} {} {}", who, obj, pos, v), out);
                     out.count("edit_put");
                     if r.chance(2, 3) { commit(sess, out, &mut g, &who); }
